@@ -43,9 +43,9 @@ var cur *Task
 type Reason int
 
 const (
-	Preempted Reason = iota // budget exhausted inside an operation
-	AtBoundary              // task called Boundary (between two operations)
-	Finished                // task body returned
+	Preempted  Reason = iota // budget exhausted inside an operation
+	AtBoundary               // task called Boundary (between two operations)
+	Finished                 // task body returned
 )
 
 func (r Reason) String() string {
